@@ -34,7 +34,7 @@ for _r, _fl in RECORDS.items():
 
 BOUNDS = {
     'quick': {'S': 4, 'A': 2, 'long': 140, 'obf_max': 140},
-    'thorough': {'S': 6, 'A': 3, 'long': 300, 'obf_max': 300},
+    'thorough': {'S': 8, 'A': 3, 'long': 300, 'obf_max': 300},
 }
 
 # ------------------------------------------------------------------------------
@@ -386,6 +386,7 @@ def h_message(c, cls_name, S, A, long):
             except Exception as e:  # noqa
                 c.check(False, 'decode_total', sig=csig, info=repr(e) + ' / ' + repr(e.__cause__))
                 continue
+            c.reach('roundtrip_connection')
             if c.check(type(got) is cls, 'dispatch_class', sig=csig, info=type(got).__qualname__):
                 c.check(codec.eq_formula(got, exp) if c.symbolic else real_eq(got, exp), 'roundtrip_connection', sig=csig, info=info)
         # (e) one concrete witness of this path through the real, unstubbed codec (real struct, real zlib)
@@ -584,7 +585,7 @@ META = {
                       'plain vs obfuscated connection; connection kind follows the message group', 'obfuscation: data length'],
     'bounds': {'quick': {'text/blob byte length': '0..4 (uniform and staggered profiles) plus one 140-byte text', 'array elements': '0..2 (nested arrays too)',
                          'obfuscation data length': '0..140, every length'},
-               'thorough': {'text/blob byte length': '0..6 plus one 300-byte text', 'array elements': '0..3', 'obfuscation data length': '0..300, every length'}},
+               'thorough': {'text/blob byte length': '0..8 plus one 300-byte text', 'array elements': '0..3', 'obfuscation data length': '0..300, every length'}},
     'outside': ['texts/blobs longer and arrays larger than the bound; size profiles other than the uniform / staggered / long-first ones (lengths of '
                 'different leaves are not combined exhaustively)',
                 'non-prefix-closed optionals (a later trailing optional present while an earlier one is absent) - out of the wire domain',
